@@ -743,9 +743,12 @@ pub enum Layout {
     PrettyCrlf,
     /// a line comment (with non-ASCII characters) + newline between tokens
     LineComments,
+    /// a block comment full of 2-, 3- and 4-byte characters between every pair of tokens, newline only after `;`
+    /// (so that whatever an error points at is preceded by multi-byte characters on the same line)
+    NonAsciiComments,
 }
 
-pub const ALL_LAYOUTS: [Layout; 8] = [
+pub const ALL_LAYOUTS: [Layout; 9] = [
     Layout::Pretty,
     Layout::OneLine,
     Layout::TokenPerLine,
@@ -754,6 +757,7 @@ pub const ALL_LAYOUTS: [Layout; 8] = [
     Layout::Comments,
     Layout::PrettyCrlf,
     Layout::LineComments,
+    Layout::NonAsciiComments,
 ];
 
 /// Join tokens; also returns the byte offset range of every token.
@@ -792,6 +796,12 @@ pub fn join(toks: &[String], layout: Layout) -> (String, Vec<(usize, usize)>) {
                 }
                 Layout::Comments => s.push_str(" /* c; } */ "),
                 Layout::LineComments => s.push_str(" // é嗨 ; }\n"),
+                Layout::NonAsciiComments => {
+                    if prev == ";" {
+                        s.push('\n');
+                    }
+                    s.push_str(" /* öö語🦀ö語ö */ ");
+                }
             }
         }
         if t == "[" || t == "list![" {
